@@ -62,6 +62,23 @@ def kids(n):
     return [c for c in n.get("inner", []) if c and c.get("kind")]
 
 
+NARROW_INT = {"int", "unsigned int", "unsigned", "signed", "signed int", "short", "short int", "unsigned short", "unsigned short int", "char", "signed char",
+              "unsigned char", "int32_t", "uint32_t", "int16_t", "uint16_t", "int8_t", "uint8_t", "int_least32_t", "uint_least32_t", "int_least16_t",
+              "uint_least16_t", "int_least8_t", "uint_least8_t", "char16_t", "char32_t", "wchar_t"}
+
+
+def clean_type(t: str) -> str:
+    t = " ".join(w for w in (t or "").replace("std::", "").replace("::", " ").split() if w not in ("const", "volatile", "constexpr", "static", "register"))
+    return t.strip()
+
+
+def is_narrow_int(ty) -> bool:
+    """ty: clang's {"qualType", "desugaredQualType"} or a type string"""
+    if isinstance(ty, dict):
+        return clean_type(ty.get("desugaredQualType") or ty.get("qualType", "")) in NARROW_INT or clean_type(ty.get("qualType", "")) in NARROW_INT
+    return clean_type(ty) in NARROW_INT
+
+
 def lower_expr(n) -> Any:
     if n is None or not n.get("kind"):
         return ("unknown", "null")
@@ -69,6 +86,8 @@ def lower_expr(n) -> Any:
     ks = kids(n)
     if k in ("CXXStaticCastExpr", "CXXFunctionalCastExpr", "CStyleCastExpr") and ks and n.get("type", {}).get("qualType", "") in ("float", "const float", "_Float16", "__fp16"):
         return ("call", "narrow_float", [lower_expr(ks[0])])       # an explicit narrowing of a double: not value preserving
+    if k in ("CXXStaticCastExpr", "CXXFunctionalCastExpr", "CStyleCastExpr") and ks and is_narrow_int(n.get("type", {})):
+        return ("call", "narrow_int", [lower_expr(ks[0])])         # an explicit cast to an integer type of fewer than 64 bits
     if k in TRANSPARENT and ks:
         return lower_expr(ks[0])
     if k == "SubstNonTypeTemplateParmExpr":
